@@ -27,7 +27,7 @@ PROP = "C04"
 CATS = ["create", "fix", "trim", "update"]
 CI_VARS = ["CI", "BUILD_ID", "BUILD_NUMBER", "BUILDKITE", "CIRCLECI", "CONTINUOUS_INTEGRATION", "GITHUB_ACTIONS", "HUDSON_URL", "JENKINS_URL", "TEAMCITY_VERSION", "TRAVIS", "bamboo.buildKey"]
 RULE = (
-    "project: test_one.py + test_two.py + helper.py + storage dir with one referenced and one unreferenced persisted external; sites pending in exactly one category (empty / wrong value / "
+    "project (3 variants, one of them without any trim-pending snapshot so that review never asks a trim question): test_one.py + test_two.py + helper.py + storage dir with one referenced and one unreferenced persisted external; sites pending in exactly one category (empty / wrong value / "
     "loose bound / untested member / `2+3` text / missing external) plus mixed sites (`in` list needing fix+trim, sub-snapshot needing create+trim) and xfail-marked tests; configuration = "
     "category subset x mode {-, report, review, short-report, disable} x source {CLI, INLINE_SNAPSHOT_DEFAULT_FLAGS, pyproject default-flags, default-flags-tui under FORCE_COLOR, --fix/--review, "
     "custom shortcut} incl. conflicting sources x 4 review answers x environment {plain, one of 12 CI variables, CI+PYCHARM_HOSTED, -n 2, -n 0}; case = session; non-trivial = the model's approved "
@@ -52,6 +52,21 @@ UNUSED = b"unused persisted data"
 # (name, source lines, op, previous expr or None, observations, categories pending, xfail?)
 def sites_for(variant):
     ref = sha(PERSISTED)
+    if variant == 2:
+        one = [
+            ("create_eq", "assert 5 == snapshot()", "eq", None, ["5"]),
+            ("fix_eq", "assert 5 == snapshot(4)", "eq", "4", ["5"]),
+            ("update_eq", "assert 5 == snapshot(2+3)", "eq", "2+3", ["5"]),
+            ("clean_eq", "assert double(3) == snapshot(6)", "eq", "6", ["6"]),
+            ("ext_ref", f"assert outsource('persisted data') == snapshot(external('{ref[:12]}*.txt'))", None, None, None),
+        ]
+        two = [
+            ("fix_ge", "assert 5 >= snapshot(8)", "ge", "8", ["5"]),
+            ("create_ext", "assert outsource('new text') == snapshot()", None, None, None),
+            ("xfail_fix", "assert 1 == snapshot(2)", "xfail", "2", ["1"]),
+            ("update_list", "assert [1, 2] == snapshot([1, 1+1])", "eq", "[1, 1+1]", ["[1, 2]"]),
+        ]
+        return one, two
     one = [
         ("create_eq", "assert 5 == snapshot()", "eq", None, ["5"]),
         ("fix_eq", "assert 5 == snapshot(4)", "eq", "4", ["5"]),
@@ -133,7 +148,7 @@ def approval_model(cfg):
     if "review" in flags:
         answers = list(cfg.get("answers") or [])
         for cat in CATS:  # prompts in the order create, fix, trim, update for categories with a visible diff
-            if cat in flags:
+            if cat in flags or cat not in cfg.get("pending", CATS):
                 continue
             if answers and answers.pop(0):
                 A.add(cat)
@@ -237,6 +252,7 @@ def session_inputs(cfg):
 def check_session(cfg, variant, out, C):
     args, env, pp, stdin = session_inputs(cfg)
     files, one, two = build_files(variant, pp)
+    cfg = dict(cfg, pending=[c for c in CATS if c != "trim"] if variant == 2 else CATS)
     exp = approval_model(cfg)
     proj = session.Project(files, with_vp=False)
     try:
@@ -374,6 +390,15 @@ FIXED_CONFIGS = [
 
 
 FIXED_CONFIGS += [dict(cli=["create", "fix", "trim", "update"], source="cli", envk="ci", ci=v) for v in CI_VARS]
+# review sessions in which no trim question is asked (variant 2 has no trim-pending snapshot): unused externals must stay
+FIXED_NOTRIM = [
+    dict(cli=["review"], source="cli", envk="plain", tty=True, answers=[False, False, False, False]),
+    dict(cli=["review"], source="cli", envk="plain", tty=True, answers=[True, True, True, True]),
+    dict(cli=None, source="tui", tty=True, envk="plain", answers=[False, True, False, False]),
+    dict(cli=["review", "create"], source="cli", envk="plain", tty=True, answers=[False, False, False, False]),
+    dict(cli=["trim"], source="cli", envk="plain"),
+    dict(cli=["report", "fix"], source="cli", envk="plain"),
+]
 FIXED_CONFIGS += [dict(cli=None, env_flags=["create", "fix", "trim", "update"], source="env", envk="ci", ci=v) for v in CI_VARS[::3]]
 
 
@@ -390,8 +415,12 @@ def run_shard(args):
     for c in range(nsessions):
         rng = random.Random(f"{args.seed}/{PROP}/{args.shard}/{c}")
         todo.append(gen_config(rng))
+    for i, fc in enumerate(FIXED_NOTRIM):
+        if (i + 7) % args.nshards == args.shard:
+            check_session(dict(base, **fc), variant=2, out=out, C=C)
+            C["no_trim_question_sessions"] = C.get("no_trim_question_sessions", 0) + 1
     for n, cfg in enumerate(todo):
-        check_session(cfg, variant=n % 2, out=out, C=C)
+        check_session(cfg, variant=n % 3, out=out, C=C)
         if len(out["samples"]) < 2:
             a, e, pp, si = session_inputs(cfg)
             out["samples"].append({"args": a, "env": e, "pyproject": pp, "stdin": si.decode(), "model": str(approval_model(cfg))})
